@@ -304,10 +304,10 @@ func TestVerifC18(t *testing.T) {
 		}
 		for i := 0; i < n; i++ {
 			x := sched.RunOnce(c18Body(t, st, kinds), rp.Choices, rp.Fine)
-			if v, _ := x.Obs.(*Verdict); v != nil && v.Violation != "" {
+			if v, _ := x.Obs.(*Verdict); v != nil && v.Violation != "" && x.Stuck == "" {
 				res.Violate(v.Sig, v.Violation, rp)
 			}
-			t.Logf("trace: %v", x.Trace)
+			t.Logf("trace: %v stuck=%q", x.Trace, x.Stuck)
 		}
 		return
 	}
